@@ -9,15 +9,15 @@ LEVEL_TEXT = {
  "C02": "Held-on-observed: a dict model is stepped in lock-step with the real store and the WHOLE observable state of every bucket is compared after every operation of generated hostile histories (ties, nesting, zero-length, delete/upsert interleavings) on all three backends.",
  "C03": "Held-on-observed: every windowed read and count is judged against must/may sets computed in integer microseconds with the statement's own 2 ms edge tolerance; edges are placed on, 1 us, 1 ms and 3 ms around event edges on purpose.",
  "C04": "Held-on-observed: frame condition checked around every single operation (full dump of all other buckets before/after), with ids taken from other buckets and instants that coincide across buckets.",
- "C05": "Held-on-observed: dict model of the bucket map stepped with generated lifecycle histories incl. operations on missing ids and delete/re-create cycles; listing, metadata and event content compared after every step.",
+ "C05": "Held-on-observed: dict model of the bucket map stepped with generated lifecycle histories incl. operations on missing ids and delete/re-create cycles, store reopened mid-history, the caller editing the dicts it passed in and was handed; listing, metadata and event content compared after every step.",
  "C06": "Fault enumeration: the committed state is read through a second read-only connection at EVERY SQL statement boundary and operation return of each generated history (= every process-death point between statements), and real child processes are SIGKILLed / _exit / exit at chosen statements and the reopened file judged the same way. Prefix, no-split, monotonicity, durability-on-return and the <=64 lost-writes bound are decided per crash point.",
  "C07": "Held-on-observed: after every heartbeat of generated streams fed through the standard loop, the bucket is compared with heartbeat_reduce of the prefix (real transform and integer reference) and the neighbouring buckets with their initial dump.",
  "C08": "Held-on-observed: monitor at the boundary of heartbeat_merge / heartbeat_reduce compares every call with an integer-microsecond restatement of the hull rule and the stated normal-form laws.",
  "C09": "Held-on-observed: monitors at filter_period_intersect / period_union compare each result with set-algebra over integer intervals (independent of the timeslot library); a third of the direct cases call a second time on the same objects after one was changed through the public setters.",
  "C10": "Held-on-observed: monitor at flood checks the stated cover laws (per-label cover kept, new cover == exactly the short gaps, output disjoint and positive) on generated sequences with gaps at pulsetime +-1 ms and events that end between milliseconds.",
  "C11": "Held-on-observed: generated ASTs are printed (twice, different spacing) and evaluated by the real interpreter; value AND the call trace recorded at the built-in registry are compared with a reference evaluator working on the AST; the recorder also compares the values handed to every built-in before and after the call.",
- "C12": "Held-on-observed: full dump of all buckets before/after every generated query (incl. failing and in-place-mutating ones) on each backend - data of minutes, of a year, of ~2700 tied events, and around the present moment; query_bucket / eventcount results recorded at the registry compared with direct windowed reads; queries that fail inside the store's own read are judged against the acknowledged writes, not against a (flushing) dump.",
- "C13": "Held-on-observed; the millisecond floor is checked for ALL 10^6 microsecond values (exhaustive in that dimension) on several base instants/offsets and both input representations, plus random representations/durations/ids with schema validation and three rebuild paths.",
+ "C12": "Held-on-observed: full dump of all buckets before/after every generated query (incl. failing and in-place-mutating ones) on each backend - data of minutes, of a year, of ~2700 tied events, and around the present moment, windows up to centuries wide; query_bucket / eventcount results recorded at the registry compared with direct windowed reads; queries that fail inside the store's own read are judged against the acknowledged writes, not against a (flushing) dump.",
+ "C13": "Held-on-observed; the millisecond floor is checked for ALL 10^6 microsecond values (exhaustive in that dimension) on several base instants/offsets and both input representations, plus random representations (zone-aware datetimes near DST transitions, both folds of a repeated clock reading)/durations/ids with schema validation and three rebuild paths.",
  "C14": "Held-on-observed: real legacy databases built by PeeweeStorage in a private XDG_DATA_HOME, migrated by constructing the default SqliteStorage; bucket sets, metadata, event multisets and the legacy file hash compared.",
  "C15": "Held-on-observed: monitor at union_no_overlap compares each result with interval subtraction/union in integer microseconds.",
  "C16": "Held-on-observed: monitors at the six functions check bijection with key-presence/value groups, exact duration sums, run structure, permutation+order, prefix and complementary sub-sequences.",
